@@ -5,7 +5,7 @@
    that the same accumulator is applied to draws and gradients and only their ratio is used), and
    binary64 statements about the scale-update kernels for every bit pattern of their inputs. *)
 From Coq Require Import QArith List ZArith Bool.
-From NutsV Require Import lib.Fp model.Estimator proofs.Estimator_facts.
+From NutsV Require Import lib.Fp model.Estimator proofs.Estimator_facts model.LowRank proofs.LowRank_facts.
 Import ListNotations.
 
 Theorem C08_running_mean_exact :
@@ -90,6 +90,98 @@ Theorem C08_subnormal_limit_refuted :
   is_finite (snd (f_set (fclamp d d d))) = false.
 Proof. exact scale_update_unsafe_for_subnormal_lo. Qed.
 Print Assumptions C08_subnormal_limit_refuted.
+
+(* ------------------------------------------------------------------------------------------ *)
+(* low-rank estimator: everything around the faer decompositions (model/LowRank.v)             *)
+(* ------------------------------------------------------------------------------------------ *)
+(* one non-finite entry anywhere in what compute_update hands over - scales, translation,
+   eigenvalues, eigenvectors - and the transformation (and its id) stays exactly what it was *)
+Theorem C08_lowrank_invalid_estimate_keeps_previous :
+  forall (st : lrm) (stds mean vals : list f64) (vecs : list (list f64)) (mu : list f64) (x : f64),
+    is_finite x = false ->
+    (In x stds \/ In x mean \/ In x vals \/ exists col, In col vecs /\ In x col) ->
+    lr_update st stds mean vals vecs mu = st.
+Proof. exact lr_nonfinite_entry_keeps_previous. Qed.
+Print Assumptions C08_lowrank_invalid_estimate_keeps_previous.
+
+(* fewer than three draws, or a pipeline that gave up: nothing changes *)
+Theorem C08_lowrank_adapt_guards :
+  (forall st count upd, (count < 3)%N -> lr_adapt st count upd = st) /\
+  (forall st count, lr_adapt st count None = st).
+Proof. split; [exact lr_adapt_needs_three | exact lr_adapt_none]. Qed.
+Print Assumptions C08_lowrank_adapt_guards.
+
+(* an accepted update installs exactly the estimate and bumps the id; the id moves iff anything moves *)
+Theorem C08_lowrank_update_installs :
+  forall st stds mean vals vecs mu, lr_gate stds mean vals vecs = true ->
+    let st' := lr_update st stds mean vals vecs mu in
+    lr_stds st' = stds /\ lr_inv st' = map frecip stds /\ lr_mean st' = mean /\
+    lr_inner st' = Some (map fsqrt vals, map (fun v => frecip (fsqrt v)) vals, mu) /\
+    lr_id st' = (lr_id st + 1)%Z.
+Proof. exact lr_update_installs. Qed.
+Print Assumptions C08_lowrank_update_installs.
+
+Theorem C08_lowrank_id_moves_iff_changed :
+  forall st stds mean vals vecs mu,
+    lr_id (lr_update st stds mean vals vecs mu) = lr_id st <-> lr_update st stds mean vals vecs mu = st.
+Proof. exact lr_update_id_iff. Qed.
+Print Assumptions C08_lowrank_id_moves_iff_changed.
+
+(* scales and eigenvalues in [2^-1022, 2^1022]: every scale in use (sigma, 1/sigma, lambda^(1/2),
+   lambda^(-1/2)) is finite and strictly positive after the update *)
+Theorem C08_lowrank_scales_finite_positive :
+  forall st stds mean vals vecs mu,
+    lr_gate stds mean vals vecs = true -> Forall good stds -> Forall good vals ->
+    let st' := lr_update st stds mean vals vecs mu in
+    Forall finpos (lr_stds st') /\ Forall finpos (lr_inv st') /\
+    match lr_inner st' with
+    | Some (vs, vsi, _) => Forall finpos vs /\ Forall finpos vsi
+    | None => False
+    end.
+Proof. exact lr_update_scales_ok. Qed.
+Print Assumptions C08_lowrank_scales_finite_positive.
+
+(* the finite gate of `update` alone does NOT give that: a zero scale passes it *)
+Theorem C08_lowrank_gate_alone_refuted :
+  let st := {| lr_stds := [fone]; lr_inv := [fone]; lr_mean := [fzero]; lr_inner := None; lr_id := 0 |} in
+  let st' := lr_update st [fzero] [fzero] [] [] [fzero] in
+  lr_id st' = 1%Z /\ map is_finite (lr_inv st') = [false].
+Proof. exact lr_gate_admits_zero_scale. Qed.
+Print Assumptions C08_lowrank_gate_alone_refuted.
+
+(* what keeps a zero / infinite / NaN sigma away from `update`: rescale_points multiplies the whole
+   row by 1/sigma (draws) and sigma (gradients), and for EVERY entry value one of the two rows
+   becomes non-finite, so the decompositions see a non-finite matrix (they fail or return
+   non-finite factors - checked on the implementation - and the gate above rejects) *)
+Theorem C08_lowrank_bad_sigma_poisons_window :
+  forall sigma : f64, (is_finite sigma = false \/ feq sigma fzero = true) ->
+    (forall v mu, is_finite (lr_draw_scaled v mu sigma) = false) \/
+    (forall g, is_finite (lr_grad_scaled g sigma) = false).
+Proof. exact lr_bad_sigma_poisons_row. Qed.
+Print Assumptions C08_lowrank_bad_sigma_poisons_window.
+
+(* the eigenvalue filter keeps exactly the eigenvalues outside [1/cutoff, cutoff]; NaN is dropped,
+   +inf is kept (and then rejected by the gate) *)
+Theorem C08_lowrank_filter :
+  (forall cutoff vals v, In v (lr_filter cutoff vals) <-> In v vals /\ lr_keep cutoff v = true) /\
+  (forall cutoff v, is_nan v = true -> lr_keep cutoff v = false) /\
+  (forall cutoff, is_finite cutoff = true -> lr_keep cutoff finf = true) /\
+  to_bits (frecip f_two) = 4602678819172646912%Z.
+Proof.
+  split; [exact lr_filter_spec | split; [exact lr_keep_nan | split; [exact lr_keep_inf | exact lr_default_cutoff_recip]]].
+Qed.
+Print Assumptions C08_lowrank_filter.
+
+Local Open Scope Z_scope.
+Example C08_lowrank_nonvacuous :
+  run_lr_update 0 3%N true [4607182418800017408; 4611686018427387904] [0; 0] [4616189618054758400]
+                [[4607182418800017408; 0]] [0; 0] [4607182418800017408; 4607182418800017408]
+                [4607182418800017408; 4607182418800017408] [0; 0]
+  = [[1; 1]; [4607182418800017408; 4611686018427387904]; [4607182418800017408; 4602678819172646912];
+     [0; 0]; [4611686018427387904]; [4602678819172646912]; [0; 0]].
+Proof. vm_compute. reflexivity. Qed.
+Print Assumptions C08_lowrank_nonvacuous.
+Local Close Scope Z_scope.
 
 Example C08_nonvacuous :
   run_estimator 4 [4607182418800017408; 4607182418800017408; 4307583784117748259; 4906019910204099648]%Z
